@@ -401,6 +401,16 @@ func (env *LEnv) load(ctx context.Context, exprs []*LVal) *LVal {
 		env.Runtime.Package = currPkg
 	}()
 
+	// Likewise restore the environment's current source location.  Nested
+	// loads (load-file, load-string, load-bytes) evaluate in the root
+	// environment; without this a builtin that calls load-file more than
+	// once from a top-level form (map, foldl with the builtin itself) would
+	// push its next frame with a location inside the previously loaded file,
+	// and the next relative load would resolve against that file's directory
+	// instead of the directory of the file doing the loading.
+	loc := env.loc
+	defer func() { env.loc = loc }()
+
 	ret := Nil()
 	for _, expr := range exprs {
 		ret = env.eval(ctx, expr)
